@@ -150,6 +150,7 @@ def evidence(pid, tier, seed, level, results, violations, known_hits, undecided,
             'proved_exec_functions': sum(1 for r in proof for f in r.exec_functions if f.get('verified')),
             'lemmas': sum(r.lemmas for r in proof),
             'vacuity_canary': {r.name: r.canary for r in proof},
+            'stability_reruns': {r.name: r.stability for r in proof if r.stability},
             'extraction_drops': {r.name: r.dropped for r in proof},
             'lost_hint_anchors': [n for r in proof for n in r.notes if n.startswith('lost hint')],
         })
